@@ -20,6 +20,34 @@ var (
 
 func add(a *big.Int, d int64) *big.Int { return new(big.Int).Add(a, big.NewInt(d)) }
 
+// aliasChains: chain ids DIFFERENT from chain that a weakened comparison would take for the same one
+// (round 3): equal low 64 / 63 / 32 bits (big.Int.Uint64 / Int64 / uint32 truncation) in both directions,
+// equal above 256 bits cut off, a trailing zero byte / decimal digit (prefix comparisons of Bytes() / String()),
+// same bit length. Every comparison of chain ids in the signing code must tell all of them apart.
+func aliasChains(chain string) []string {
+	c := bigOf(chain)
+	var out []string
+	seen := map[string]bool{chain: true}
+	put := func(x *big.Int) {
+		if x.Sign() < 0 || seen[x.String()] {
+			return
+		}
+		seen[x.String()] = true
+		out = append(out, x.String())
+	}
+	sh := func(k uint) *big.Int { return new(big.Int).Lsh(one, k) }
+	for _, k := range []uint{64, 63, 32, 256} {
+		put(new(big.Int).Add(c, sh(k)))
+		put(new(big.Int).Mod(c, sh(k))) // the other direction: c itself is the long one
+	}
+	put(new(big.Int).Add(c, new(big.Int).Mul(big.NewInt(7), sh(200))))
+	put(new(big.Int).Add(c, new(big.Int).Mul(new(big.Int).SetUint64(^uint64(0)), sh(64))))
+	put(new(big.Int).Lsh(c, 8))
+	put(new(big.Int).Mul(c, big.NewInt(10)))
+	put(new(big.Int).Xor(c, one))
+	return out
+}
+
 func randBig(r *hlib.Rng) *big.Int {
 	switch r.Pick(2, 3, 2, 2, 2, 1) {
 	case 0:
@@ -129,6 +157,14 @@ func mutations(base *TxSpec, r *hlib.Rng) []mutation {
 		t := base.clone()
 		t.Chain = incStr(base.Chain, d)
 		ms = append(ms, mutation{field: "chain_id", signed: true, tx: t, chains: []string{base.Chain, t.Chain}})
+	}
+	// ... and to two chain ids a truncating comparison confuses with the original (round 3)
+	if al := aliasChains(base.Chain); len(al) > 0 {
+		for _, c := range []string{al[0], al[r.Intn(len(al))]} {
+			t := base.clone()
+			t.Chain = c
+			ms = append(ms, mutation{field: "chain_id", signed: true, tx: t, chains: []string{base.Chain, t.Chain}})
+		}
 	}
 	sg("nonce", func(t *TxSpec) { t.Nonce++ })
 	sg("nonce", func(t *TxSpec) { t.Nonce ^= 1 << uint(r.Intn(64)) })
@@ -280,7 +316,7 @@ func generate(r *hlib.Rng, n int, tier string) []*Spec {
 			push(&Spec{Kind: "recover", Tx: t, SgChain: "9001", SgLoc: []byte{0, 0}, Note: "negV/wrong-chain"})
 		}
 		// wrong chain beats everything else, whatever the values
-		for _, c := range []string{"9001", "0", "1"} {
+		for _, c := range append([]string{"9001", "0", "1"}, aliasChains("9000")...) {
 			push(&Spec{Kind: "recover", Tx: base.clone(), SgChain: c, SgLoc: []byte{0, 0}, Note: "wrong-chain"})
 			t := base.clone()
 			t.S = "0"
@@ -334,6 +370,9 @@ func generate(r *hlib.Rng, n int, tier string) []*Spec {
 				note = "random-r"
 			}
 			others := []string{incStr(t.Chain, 1), "1", "77"}
+			if al := aliasChains(t.Chain); len(al) > 0 {
+				others = append(others, al[r.Intn(len(al))], al[r.Intn(len(al))], al[0])
+			}
 			var ops []COp
 			for j, m := 0, 3+r.Intn(8); j < m; j++ {
 				switch r.Pick(2, 5, 4) {
@@ -360,6 +399,21 @@ func generate(r *hlib.Rng, n int, tier string) []*Spec {
 		push(&Spec{Kind: "cache", Tx: base, Note: "fill-then-cross", Ops: []COp{{K: "S", Chain: "9000", Loc: l0}, {K: "S", Chain: "9001", Loc: l0}, {K: "S", Chain: "9000", Loc: l1}, {K: "S", Chain: "1", Loc: l1}}})
 		push(&Spec{Kind: "cache", Tx: base, Note: "hash-then-cross", Ops: []COp{{K: "H"}, {K: "S", Chain: "9001", Loc: l1}, {K: "S", Chain: "9000", Loc: l1}, {K: "H"}, {K: "S", Chain: "9001", Loc: l0}}})
 		push(&Spec{Kind: "cache", Tx: base, Note: "cross-first", Ops: []COp{{K: "S", Chain: "9001", Loc: l0}, {K: "H"}, {K: "S", Chain: "9001", Loc: l0}, {K: "S", Chain: "9000", Loc: l0}}})
+		// round 3: the cache filled under the transaction's own chain (by Hash() or by Sender), then asked by
+		// the signer of every chain id that a truncating / prefix comparison confuses with it - for a
+		// transaction of a short chain id and for transactions of long ones (the local chain is then the alias)
+		long1 := new(big.Int).Add(p64, big.NewInt(9000)).String()
+		long2 := new(big.Int).Add(new(big.Int).Lsh(big.NewInt(7), 200), big.NewInt(9000)).String()
+		for bi, ch := range []string{"9000", long1, long2} {
+			b := randTx(r, ch)
+			sign(b, keys[bi%2])
+			for ai, a := range aliasChains(ch) {
+				la := locs()[ai%4]
+				push(&Spec{Kind: "cache", Tx: b, Note: "alias/hash-then-alias", Ops: []COp{{K: "H"}, {K: "S", Chain: a, Loc: la}, {K: "S", Chain: ch, Loc: l0}}})
+				push(&Spec{Kind: "cache", Tx: b, Note: "alias/fill-then-alias", Ops: []COp{{K: "S", Chain: ch, Loc: la}, {K: "S", Chain: a, Loc: l0}, {K: "S", Chain: ch, Loc: l1}, {K: "S", Chain: a, Loc: la}}})
+				push(&Spec{Kind: "cache", Tx: b, Note: "alias/alias-first", Ops: []COp{{K: "S", Chain: a, Loc: l0}, {K: "S", Chain: ch, Loc: la}, {K: "H"}, {K: "S", Chain: a, Loc: la}}})
+			}
+		}
 	}
 
 	// ---- E. Qi ----
@@ -646,6 +700,8 @@ func generate(r *hlib.Rng, n int, tier string) []*Spec {
 				mut("r-zero", func(t *TxSpec) { t.R = "0" }),
 				mut("s-plus-one", func(t *TxSpec) { t.S = incStr(t.S, 1) }),
 				{Label: "signed-for-another-chain", Tx: mk(0, "1", k0), NotBy: k0.addr()},
+				// round 3: a foreign chain id whose low 64 bits are the local chain id
+				{Label: "signed-for-an-alias-chain", Tx: mk(0, aliasChains("9000")[0], k0), NotBy: k0.addr()},
 			}
 		}
 		op := func(k string, t ...int) POp { return POp{K: k, T: t} }
